@@ -98,3 +98,15 @@ func (c *Client) VerifDeriveParams(prop ChannelProposal, acc ChannelProposalAcce
 func (c *Client) VerifPersistVirtualChannel(ctx Ctx, parent *Channel, peers []map[wallet.BackendID]wire.Address, params channel.Params, state channel.State, sigs []wallet.Sig) (*Channel, error) {
 	return c.persistVirtualChannel(ctx, parent, peers, params, state, sigs)
 }
+
+// VerifLocked runs f with the channel's machine mutex held (so that a harness
+// reading the machine synchronises with the protocol goroutines as API users
+// do) and reports whether the mutex could be taken.
+func (c *Channel) VerifLocked(f func(channel.Source)) bool {
+	if !c.machMtx.TryLock() {
+		return false
+	}
+	defer c.machMtx.Unlock()
+	f(c.machine.StateMachine)
+	return true
+}
